@@ -459,7 +459,8 @@ PROPS = {
     "C06": dict(module="TB.Props.C06", theorems=["C06_partition_multi", "C06_partition_single", "C06_every_byte_multi", "C06_every_byte_single",
                                                   "C06_closed_form_multi", "C06_closed_form_single", "C06_zero_piece_length", "C06_loaded"],
                 clauses=["c06-", "c15-sum", "c02-"],
-                worlds=lambda t, s: worlds_default(t, s, "c06", 120, 2400, tweak_threads),
+                worlds=lambda t, s: [W.gen_world_trailing_empty(Rng(s, "c06-empty", i)) for i in range(16 if t == "quick" else 320)]
+                                    + worlds_default(t, s, "c06", 120, 2400, tweak_threads),
                 unit_stream=lambda t, s: unit.c06_stream(t, s)[0]),
     # C07 at run level: torrents with the same interpreted content and different info bytes (cross-seeds) are DIFFERENT torrents,
     # each exported under the hex form of its own info-hash; the unit-level stream (hash of the exact info bytes) stays
